@@ -355,7 +355,11 @@ fn check_stack(buf: &mut Buffer, st: &Stack, ctx: &mut Ctx) {
                 let (px, py) = (b.0 + k as i32 % w, b.1 + k as i32 / w);
                 let (lx, ly) = (px - up.ox, py - up.oy);
                 let covered = up.cells.iter().rev().find(|c| c.0 == lx && c.1 == ly).map(|c| matches!(c.2, Kind::A | Kind::B)).unwrap_or(false) && lx >= 0 && ly >= 0 && lx < up.w && ly < up.h;
-                if covered && x != y {
+                // what an upper chars layer decides is the character, what an upper attributes layer decides are the colours and flags
+                // (the rest of the cell comes from beneath, where the lower layer may take part - e.g. a see-through cell between the
+                // two is filled from what the layers beneath it display)
+                let differs = if up.mode == 1 { x.visible != y.visible || x.ch != y.ch } else { x.visible != y.visible || x.fg != y.fg || x.bg != y.bg || x.attr != y.attr };
+                if covered && differs {
                     ctx.violation(
                         format!("diff:layers:L8-lower-modifier-layer-wins:{}", ["normal", "chars", "attributes"][up.mode as usize]),
                         json!({"stack(bottom first)": stack_json(), "upper_layer": j, "edited_lower_layer": i, "position": [px, py], "before": format!("{x:?}"), "after": format!("{y:?}")}),
@@ -421,6 +425,44 @@ fn check_stack(buf: &mut Buffer, st: &Stack, ctx: &mut Ctx) {
                 );
                 return;
             }
+        }
+    }
+    // L11: compositing is associative: the layers beneath any split point can be replaced by ONE layer that holds exactly what they
+    //      display (visible cells; nothing where they display nothing) without changing what the whole stack displays
+    for k in 1..n {
+        let mut lower = built.clone();
+        lower.truncate(k);
+        set_layers(buf, lower);
+        let shown_below = sample(buf, b, 0, 0);
+        let (w, h) = (b.2 - b.0, b.3 - b.1);
+        let mut flat = Layer::new("flattened", (w, h));
+        flat.properties.has_alpha_channel = true;
+        flat.set_offset((b.0, b.1));
+        for (i, o) in shown_below.iter().enumerate() {
+            if o.visible {
+                let mut a = TextAttribute::new(o.fg, o.bg);
+                a.attr = o.attr;
+                a.set_font_page(o.page);
+                flat.set_char((i as i32 % w, i as i32 / w), AttributedChar::new(char::from_u32(o.ch).unwrap_or(' '), a));
+            }
+        }
+        let mut ls = vec![flat];
+        ls.extend(built[k..].iter().cloned());
+        set_layers(buf, ls);
+        ctx.count("transitions", 2);
+        let s = sample(buf, b, 0, 0);
+        if s != base {
+            let upper_modes: Vec<u8> = specs[k..].iter().map(|l| l.mode).collect();
+            let i = base.iter().zip(s.iter()).position(|(x, y)| x != y).unwrap_or(0);
+            ctx.violation(
+                format!(
+                    "diff:layers:L11-flattening-the-layers-beneath:{}{}",
+                    if upper_modes.iter().all(|m| *m == 0) { "under-normal-layers" } else { "under-modifier-layers" },
+                    if shown_below.iter().any(|o| o.visible && (o.fg == TRANSPARENT || o.bg == TRANSPARENT)) { ":lower-part-shows-the-transparent-marker" } else { "" }
+                ),
+                json!({"stack(bottom first)": stack_json(), "flattened_layers": k, "position": [b.0 + i as i32 % w, b.1 + i as i32 / w], "whole_stack": format!("{:?}", base[i]), "with_flattened_lower_part": format!("{:?}", s[i]), "lower_part_shows": format!("{:?}", shown_below[i])}),
+            );
+            return;
         }
     }
     // L5: moving one layer far away changes only positions inside its old (and new) rectangle
